@@ -14,7 +14,7 @@ LEVEL_TEXT = ('partial. Lean 4 theorems about the deterministic wrappers around 
               'non-negative integer; both shot-noise methods reject exactly the frames with a negative or an unrepresentably large count; '
               'read noise is additive and signal-independent; a dark frame without pattern noise is floor(rate); a power-spectrum '
               'surface is zero outside its mask with mean square exactly rms^2 over its non-zero pixels for every mask shape; '
-              'the accumulation of non-negative ray deposits is non-negative (tie to cosmic_rays sampled); power_spectrum grid/filter/noise shapes as the source builds them (regenerated); every function taking a seed builds its generator as default_rng(seed) with the bare parameter (or hands seed on unchanged: rule07 -> dark_current) '
+              'the accumulation of non-negative ray deposits is non-negative (tie to cosmic_rays sampled); power_spectrum grid/filter/noise shapes and per-axis frequency normalisation as the source builds them (regenerated PINS: theorems about generated text that the numeric model does not consume), its mask-and-normalise tail regenerated AND consumed by the model; every function with a parameter named seed (filter on the signature) builds its generator as default_rng(seed) with the bare parameter (or hands seed on unchanged: rule07 -> dark_current) '
               'and touches no global generator, cache or module global: read off the source on every run (effect table with generator argument and seed-forwarding call sites). '
               'Distribution moments and "different seeds differ" are sampled assumption checks, not proved.')
 LEVEL_NOTE = ('partial by nature: means/variances and seed sensitivity are properties of NumPy\'s generators (unproven clauses, sampled).')
@@ -126,8 +126,10 @@ def generate(rng, tier):
             sh = (int(rng.integers(4, 40)), int(rng.integers(4, 40)))
             out.append({'kind': 'cosmic', 'shape': list(sh), 'ts': float(rng.choice([1.0, 200.0, 5000.0])), 'state': seed % 2**32})
         else:
-            out.append({'kind': 'moments', 'which': ['poisson', 'gaussian', 'read'][int(rng.integers(0, 3))], 'seed': seed,
-                        'level': float([20, 400, 5000][int(rng.integers(0, 3))])})
+            which = ['poisson', 'gaussian', 'read'][int(rng.integers(0, 3))]
+            level = float([20, 400, 5000][int(rng.integers(0, 3))])
+            if which == 'gaussian': level = float([2000, 5000, 50000][int(rng.integers(0, 3))])      # only inside the documented regime (> 1000)
+            out.append({'kind': 'moments', 'which': which, 'seed': seed, 'level': level})
     return out
 
 def _seeded_call(lentil, c, seed):
